@@ -465,10 +465,12 @@ func check(prop string, args []string) int {
 					}
 				}
 				mu.Unlock()
-				if !res.died {
+				if !res.died && (len(res.recs) == 0 || time.Until(deadline) < 2*time.Second) {
 					return
 				}
-				from = last + workers // skip the fatal run and carry on
+				// died: skip the fatal run and carry on. Finished early without dying: the
+				// worker recycled itself (memory), carry on from the next index
+				from = last + workers
 			}
 		}(w)
 	}
